@@ -20,7 +20,7 @@ pub fn run(case: &Sx, out: &mut Vec<Ev>) {
         if let Sx::A(_) = op {
             // as_slice(), len() and to_aml_bytes must agree
             let s = t.as_slice().to_vec();
-            if s.len() != t.len() || image(&t) != Ev::Bytes(s.clone()) {
+            if s.len() != t.len() || t.is_empty() != s.is_empty() || image(&t) != Ev::Bytes(s.clone()) {
                 panic!("harness: Sdt observers disagree");
             }
             out.push(Ev::Bytes(s));
